@@ -98,7 +98,7 @@ PoolsThorough == PoolsQuick \cup PoolsMore
 
 TableSet == CASE Scope = "quick" -> {G6, Empty2, Single}
               [] Scope = "edit"  -> {G6}
-              [] Scope = "editT" -> {G6, Dup}
+              [] Scope = "editT" -> {G6}
               [] Scope \in {"names", "reals", "names+reals"} -> {G6, Empty2, Single}
               [] OTHER -> {G4, G8, Dup, Empty2, Single}
 PoolSet  == CASE Scope = "quick" -> PoolsQuick
